@@ -37,7 +37,7 @@ def replay(doc):
     s, g = e2.replay(c["seed"], hist[:-1])
     idb = e2.ids(s)
     g2, exc = e2.step(s, g, hist[-1])
-    v = trans_check(c["seed"], hist[:-1], hist[-1], s0, e2.kfull(s0, g0), s, e2.kfull(s, g2), idb, exc, {})
+    v = trans_check(c["seed"], hist[:-1], hist[-1], s0, e2.kfull(s0, g0, extra=False), s, e2.kfull(s, g2, extra=False), idb, exc, {})
     for sig, det in v:
         print("  ", sig, det)
     return [tuple(str(x) for x in s_) for s_, _ in v]
